@@ -539,7 +539,11 @@ theorem C16_body_new_truthful (first now : Hint) (run : List Out)
 
 /-- **The response head comes back as the inner service made it**, except for `content-type`: status, HTTP
 version and extensions are kept (any status, not only 200 — a trailers-only answer with `grpc-status` among its
-headers included), exactly one `content-type` of the accepted form, every other header value in place. -/
+headers included), exactly one `content-type` of the accepted form, every other header value in place.
+Conjuncts 1–3 (status, version, extensions kept) are transcription lemmas: `coerceResponseHead a h :=
+{ h with headers := … }` touches no other field, so they are `rfl`; that `coerce_response` keeps them in
+tonic-web is carried by the correspondence run (response heads compared token for token).  Conjuncts 4–5
+are `C16_coerce_response_headers`, which has content. -/
 theorem C16_response_head_kept (a : Enc) (h : RespHead) :
     (coerceResponseHead a h).status = h.status ∧
     (coerceResponseHead a h).version = h.version ∧
